@@ -390,6 +390,12 @@ func runCase(k int, f *hx.Flags, o *hx.Out) {
 		hdr, _ = src.GetHeader(src.GetHeaderHash(c.P + 1))
 	}
 	c.root = hdr.PrevStateRoot
+	if k < 5 || c.r.Chance(1, 3) {
+		o.Count("profile:concurrent-producers")
+		if !c.concurrentProducers(protoCfg(c.src.net, interval, mtb, false), top) {
+			return
+		}
+	}
 	// node table of the source trie at P
 	c.nodes = map[util.Uint256][]byte{}
 	info := map[util.Uint256]ninfo{}
@@ -424,7 +430,8 @@ func runCase(k int, f *hx.Flags, o *hx.Out) {
 	if c.P > mtbAtP {
 		b0 = c.P - mtbAtP
 	}
-	o.Line(fmt.Sprintf("cfg %d %d %d %d", c.P, b0, c.id[c.root], len(c.hashes)), "ok")
+	// b0 is read off the source (what a synced node has); the driver checks it against the model's windowBase(P, mtb)
+	o.Line(fmt.Sprintf("cfg %d %d %d %d %d", c.P, b0, c.id[c.root], len(c.hashes), mtbAtP), "ok")
 	for i, h := range c.hashes {
 		var parts []string
 		inf := info[h]
